@@ -155,7 +155,7 @@ void sim_apply_plan(const Plan *p)
 		n->efail_errno = (int)p->efail_errno;
 		n->eburst_at = p->eburst_at;
 		n->eburst_k = (int)p->eburst_k;
-		n->eburst_val = (uint8_t)p->eburst_val;
+		n->eburst_val = (int)p->eburst_val;
 	}
 }
 
